@@ -45,11 +45,15 @@ Proof. intros H. apply text_in_In. exact (proj1 (forallb_forall _ _) en_labels_c
 Lemma ja_symbols_closed ops sym : In (ops, sym) (ja_binary_labels ++ ja_unary_labels) -> In sym (map fst prolog_ja_combinators).
 Proof. intros H. apply text_in_In. exact (proj1 (forallb_forall _ _) ja_symbols_closed_b (ops, sym) H). Qed.
 
-(* the two translators agree: the tables the Prolog printers look labels up in are the tables of GenTables.v, on binary
-   nodes by op_string (en) and on every inner node by op_symbol (ja) *)
+(* the two translators agree: among the lookups of the Prolog printers are `_op_mapping[op_string]` on binary nodes (en) and
+   `_ja_combinators[op_symbol]` on every inner node (ja), with the tables of GenTables.v *)
+Definition label_check_eqb (a b : label_check) : bool :=
+  let '(s1, a1, k1) := a in let '(s2, a2, k2) := b in text_eqb s1 s2 && text_eqb a1 a2 && list_eqb text_eqb k1 k2.
+Definition looks_up (lang name : text) (c : label_check) : Prop :=
+  match find_spec lang name with Some f => existsb (label_check_eqb c) (f_labels f) = true | None => True end.
 Lemma prolog_lookups :
-  option_map f_labels (find_spec l_en [112;114;111;108;111;103]) = Some [(s_binary, s_op_string, map fst prolog_op_mapping)]
-  /\ option_map f_labels (find_spec l_ja [112;114;111;108;111;103]) = Some [(s_nonleaf, s_op_symbol, map fst prolog_ja_combinators)].
+  looks_up l_en [112;114;111;108;111;103] (s_binary, s_op_string, map fst prolog_op_mapping)
+  /\ looks_up l_ja [112;114;111;108;111;103] (s_nonleaf, s_op_symbol, map fst prolog_ja_combinators).
 Proof. split; vm_compute; reflexivity. Qed.
 
 (* every format of the two CLI lists is modelled, or is one of the formats that need depccg.semantics (nltk) *)
